@@ -53,6 +53,13 @@ class Scheduler:
         # schedule coordinates: (thread, id of the innermost operation, yield count inside it) -- stable
         # under deletion of other operations, which is what lets the minimiser make progress
         self.opstack = [[["root", 0]] for _ in range(n)]
+        # real locks owned by the system under test (module-level threading.Lock objects of jaxtyping): only one simulated
+        # thread runs at a time, so a lock that is held is held by the running thread; it is not pre-empted inside such a
+        # critical section (the next thread could only block on it, and a parked owner would wedge the simulation)
+        lock_t = type(threading.Lock())
+        self.sut_locks = [v for name, mod in sorted(sys.modules.items()) if name.split(".")[0] == "jaxtyping" and mod is not None
+                          for v in vars(mod).values() if isinstance(v, lock_t)]
+        self.skipped_in_critical_section = 0
 
     # -- running ------------------------------------------------------------------------------
     def run(self, fns):
@@ -160,6 +167,9 @@ class Scheduler:
                 self.lines_seen.add(key)
                 if frame is not None and self._touches_shared(frame, loc[1]):
                     self.global_lines.add(key)
+        if self.sut_locks and any(lk.locked() for lk in self.sut_locks):
+            self.skipped_in_critical_section += 1
+            return
         tgt = self.policy.decide(self, i, loc)
         if tgt is not None and tgt != i and self.alive[tgt]:
             self.handovers.append((i, [top[0], top[1]], tgt, loc))
